@@ -629,6 +629,51 @@ impl<'a> Elab<'a> {
                 self.bind_alias(n, t2);
                 return vec![];
             }
+            // `let g = X.lock().unwrap_or_else(|e| { STMTS; e.into_inner() })` on a poisonable mutex: the lock is taken either way;
+            // when the mutex is poisoned STMTS run (with `e` naming the guarded data), then `g` is the guard
+            if self.u.poisonlocks {
+                if let Expr::MethodCall(uo) = peel_paren(&init_expr) {
+                    if uo.method == "unwrap_or_else" && uo.args.len() == 1 {
+                        if let (Expr::MethodCall(lk), Expr::Closure(cl)) = (peel_paren(&uo.receiver), &uo.args[0]) {
+                            let mfield = last_field(&lk.receiver).filter(|f| self.t.mutex_fields.contains(f)).or_else(|| path_single_ident(&lk.receiver).filter(|n| self.u.mutexlocals.contains(n)));
+                            let pname = cl.inputs.first().and_then(|p| Self::pat_single_ident(p));
+                            if lk.method == "lock" && lk.args.is_empty() && mfield.is_some() && cl.inputs.len() == 1 && pname.is_some() {
+                                let (field, pname) = (mfield.unwrap(), pname.unwrap());
+                                let (stmts_src, tail): (Vec<Stmt>, Option<Expr>) = match &*cl.body {
+                                    Expr::Block(b) => {
+                                        let mut st = b.block.stmts.clone();
+                                        match st.pop() {
+                                            Some(Stmt::Expr(e, None)) => (st, Some(e)),
+                                            _ => (vec![], None),
+                                        }
+                                    }
+                                    other => (vec![], Some(other.clone())),
+                                };
+                                let tail_ok = matches!(tail.as_ref().map(peel_paren), Some(Expr::MethodCall(t)) if t.method == "into_inner" && path_single_ident(&t.receiver).as_deref() == Some(pname.as_str()));
+                                if tail_ok {
+                                    let place = self.fold_expr((*lk.receiver).clone());
+                                    let kl = self.next_key(&format!("{}.lock", field));
+                                    let mut stmts = vec![];
+                                    stmts.extend(self.pt());
+                                    stmts.extend(self.ghost_marker("before", &kl));
+                                    stmts.push(parse_quote!(#place.lock_();));
+                                    let data: Expr = parse_quote!(#place.data);
+                                    let n_alias = self.env.aliases.len();
+                                    self.bind_alias(&pname, data.clone());
+                                    let rec: Vec<Stmt> = stmts_src.into_iter().flat_map(|st| self.fold_stmt_multi(st)).collect();
+                                    self.env.aliases.truncate(n_alias);
+                                    stmts.push(parse_quote!(if #place.is_poisoned() { #(#rec)* }));
+                                    stmts.extend(self.ghost_marker("after", &kl));
+                                    self.bind_alias(n, data);
+                                    let depth = self.env.depth;
+                                    self.env.raii.push(Raii { name: n.clone(), kind: RaiiKind::Lock { place, field }, depth });
+                                    return stmts;
+                                }
+                            }
+                        }
+                    }
+                }
+            }
             // R1: guard binding
             if let Some(p) = is_lock_unwrap(&init_expr) {
                 let mfield = last_field(p).filter(|f| self.t.mutex_fields.contains(f)).or_else(|| path_single_ident(p).filter(|n| self.u.mutexlocals.contains(n)));
